@@ -27,7 +27,7 @@ def sh(cmd, **kw):
 
 
 def main():
-    src, name, props = sys.argv[1], sys.argv[2], [p.upper() for p in sys.argv[3:]]
+    src, name, props = os.path.abspath(sys.argv[1]), sys.argv[2], [p.upper() for p in sys.argv[3:]]
     scratch = tempfile.mkdtemp(prefix="vseed-")
     dst = os.path.join(scratch, "repo")
     meta = {"name": name, "breaks_property": props[0], "checked_with": props, "date": time.strftime("%Y-%m-%d"),
@@ -41,7 +41,7 @@ def main():
         ra = sh(f"patch -p1 -s < {os.path.join(src, 'patch.diff')}", cwd=dst)
         if ra.returncode != 0:
             meta["error"] = "patch does not apply: " + (ra.stdout + ra.stderr)[-400:]
-            print(json.dumps(meta, indent=1))
+            print(f"{name}: ERROR {meta['error'][:200]}")
             return 2
         rt = sh(f"PYTHONPATH={dst}/src timeout 900 /venv/bin/python -m pytest -q -p no:cacheprovider -o addopts='' "
                 f"2>&1 | tail -2", cwd=dst)
@@ -77,7 +77,7 @@ def main():
     out = os.path.join(VERIF, "seeded", name)
     os.makedirs(out, exist_ok=True)
     for f in ("patch.diff", "demo.py", "notes.md"):
-        if os.path.exists(os.path.join(src, f)):
+        if os.path.exists(os.path.join(src, f)) and os.path.abspath(src) != os.path.abspath(out):
             shutil.copy(os.path.join(src, f), os.path.join(out, f))
     notes = os.path.join(src, "notes.md")
     meta["needs_to_manifest"] = open(notes).read()[:1500] if os.path.exists(notes) else ""
